@@ -69,6 +69,15 @@ _MONTH_FULL = list(_MONTH_ABBREV_TO_FULL.values())
 _LOWERCASE_FULL = list(m.lower() for m in _MONTH_FULL)
 
 
+def _digits_to_int(digits: str) -> Union[str, int]:
+    """The int value of a string of decimal digits, or the string itself
+    if it has more digits than ``int`` accepts (certainly not a month)."""
+    try:
+        return int(digits)
+    except ValueError:
+        return digits
+
+
 class MonthLongStringMiddleware(_MonthInterpolator):
     """Replace month numbers with full month names.
 
@@ -89,7 +98,7 @@ class MonthLongStringMiddleware(_MonthInterpolator):
     def resolve_month_field_val(self, month_field: Field):
         v = month_field.value
         if isinstance(v, str) and v.isdecimal():
-            v = int(v)
+            v = _digits_to_int(v)
         if isinstance(v, int):
             if v < 1 or v > 12:
                 return (
@@ -133,7 +142,7 @@ class MonthAbbreviationMiddleware(_MonthInterpolator):
     def resolve_month_field_val(self, month_field: Field):
         v = month_field.value
         if isinstance(v, str) and v.isdecimal():
-            v = int(v)
+            v = _digits_to_int(v)
         if isinstance(v, int):
             if v < 1 or v > 12:
                 # Nothing we can do here
@@ -181,7 +190,8 @@ class MonthIntMiddleware(_MonthInterpolator):
                 )
 
         if isinstance(v, str) and v.isdecimal():
-            if 1 <= int(v) <= 12:
-                return int(v), "cast month int-string to int"
+            v_int = _digits_to_int(v)
+            if isinstance(v_int, int) and 1 <= v_int <= 12:
+                return v_int, "cast month int-string to int"
 
         return month_field.value, "month field unchanged"
